@@ -4,9 +4,11 @@
 package main
 
 import (
+	"encoding/json"
 	"flag"
 	"fmt"
 	"math/rand"
+	"os"
 
 	"verifharness/vt"
 
@@ -170,14 +172,61 @@ func content(r *rand.Rand, n, class int) []byte {
 	return b
 }
 
+// replay re-executes the single call described by a replay file against the current tree.
+func replay(path string, w *vt.Writer) {
+	raw, err := os.ReadFile(path)
+	if err != nil {
+		vt.Fatal("read replay: %v", err)
+	}
+	var obj struct {
+		Event map[string]any `json:"event"`
+	}
+	if err := json.Unmarshal(raw, &obj); err != nil || obj.Event == nil {
+		vt.Fatal("bad replay file: %v", err)
+	}
+	e := obj.Event
+	str := func(k string) string { s, _ := e[k].(string); return s }
+	var id uint32
+	fmt.Sscanf(str("id"), "%08x", &id)
+	key := vt.Unhex(str("key"))
+	ts, _ := e["tagSize"].(float64)
+	c := cfg{str("alg"), str("hash"), len(key), int(ts), str("variant"), id, str("route")}
+	m, err := build(c, key)
+	if err != nil {
+		vt.Fatal("replay: cannot construct primitive: %v", err)
+	}
+	msg := vt.Unhex(str("msg"))
+	ne := c.ev(str("ev"))
+	ne["key"], ne["msg"] = str("key"), str("msg")
+	switch str("ev") {
+	case "compute":
+		var t1, t2 []byte
+		var e1, e2 error
+		p, _ := vt.Try(func() { t1, e1 = m.ComputeMAC(msg); t2, e2 = m.ComputeMAC(msg) })
+		ne["out"], ne["out2"], ne["err"], ne["panic"] = vt.Hex(t1), vt.Hex(t2), e1 != nil || e2 != nil, p
+	case "verify":
+		var verr error
+		p, _ := vt.Try(func() { verr = m.VerifyMAC(vt.Unhex(str("tag")), msg) })
+		ne["tag"], ne["kind"], ne["ok"], ne["panic"] = str("tag"), str("kind"), verr == nil && !p, p
+	default:
+		vt.Fatal("replay: unsupported event %q", str("ev"))
+	}
+	w.Emit(ne)
+}
+
 func main() {
 	out := flag.String("out", "", "trace file")
+	rp := flag.String("replay", "", "replay file")
 	flag.Parse()
 	if *out == "" {
-		vt.Fatal("usage: c04 -out trace.ndjson")
+		vt.Fatal("usage: c04 -out trace.ndjson [-replay file]")
 	}
 	w := vt.NewWriter(*out)
 	defer w.Close()
+	if *rp != "" {
+		replay(*rp, w)
+		return
+	}
 	r := vt.Rng(4)
 	full := vt.Thorough()
 
@@ -268,9 +317,9 @@ func main() {
 			e["key"], e["msg"] = vt.Hex(key), vt.Hex(msg)
 			e["out"], e["out2"] = vt.Hex(tag), vt.Hex(tag2)
 			e["err"] = err1 != nil || err2 != nil
+			e["panic"] = p
 			if p {
-				e["err"] = "panic"
-				e["panic"] = fmt.Sprint(pv)
+				e["panicVal"] = fmt.Sprint(pv)
 			}
 			w.Emit(e)
 			if err1 != nil || p {
@@ -282,10 +331,10 @@ func main() {
 				e := c.ev("verify")
 				e["kind"] = kind
 				e["key"], e["msg"], e["tag"] = vt.Hex(key), vt.Hex(mm), vt.Hex(t)
-				e["ok"] = verr == nil
+				e["ok"] = verr == nil && !p
+				e["panic"] = p
 				if p {
-					e["ok"] = "panic"
-					e["panic"] = fmt.Sprint(pv)
+					e["panicVal"] = fmt.Sprint(pv)
 				}
 				w.Emit(e)
 			}
